@@ -5,7 +5,7 @@
 # usage: tools/mustfail.sh [Cxx ...]     (default: all properties that have a corpus)
 cd "$(dirname "$0")/.."
 props="$*"
-[ -z "$props" ] && props=$(ls mutants seeded 2>/dev/null | grep -o '^C[0-9][0-9]' | sort -u)
+[ -z "$props" ] && props=$(ls mutants seeded benign 2>/dev/null | grep -o '^C[0-9][0-9]' | sort -u)
 bad=0; n=0
 for p in $props; do
   for d in mutants/$p/*.diff seeded/$p-*/patch.diff; do
@@ -21,5 +21,16 @@ for p in $props; do
     fi
   done
 done
-echo "must-fail corpus: $n changes, $bad missed"
+# benign corpus: behaviour-preserving edits (refactors) on which every check must stay quiet
+nb=0; fa=0
+for p in $props; do
+  for d in benign/$p/*.diff; do
+    [ -f "$d" ] || continue
+    nb=$((nb+1))
+    out=$(python3 tools/mutant.py $p $d 2>&1); rc=$?
+    if [ $rc -eq 0 ]; then echo "quiet    $p $d"; else echo "FALSE-ALARM $p $d rc=$rc"; echo "$out" | grep '^VIOLATION' | cut -c1-200; fa=$((fa+1)); fi
+  done
+done
+echo "must-fail corpus: $n changes, $bad missed; benign corpus: $nb edits, $fa false alarms"
+bad=$((bad+fa))
 [ $bad -eq 0 ]
